@@ -41,6 +41,9 @@ type reshareRun struct {
 func runReshare(curve, keyref string, oldIdx []int, newT int, noProofs bool, tails [][]*big.Int, newKs []*big.Int, st sched.Strategy, seed int64, tweak func(*reshareRun)) (val.V, *reshareRun) {
 	rr := &reshareRun{}
 	o := reshareOpts{newKeys: newKs, newT: newT, seed: fmt.Sprintf("c04-%d", seed), coefs: tails, noProofs: noProofs}
+	if curve == "p256" {
+		o.ec = curveByName(curve)
+	}
 	if curve == "ed25519" {
 		keys, pids, t := edKeysByRef(keyref)
 		us := make(tss.UnSortedPartyIDs, len(oldIdx))
@@ -161,7 +164,7 @@ func reshareOracles(r *vc.Run, rr *reshareRun, curve string, newT int, pubBefore
 }
 
 func genC04(r *vc.Run) {
-	r.Rule = "full resharing runs (EdDSA, and ECDSA with and without the new-member proofs) with the dealing coefficients fixed through the readers, so that the Coq closed form predicts every new x_j, X_j and the unchanged public key; old (n,t) keys with participating subsets of size t+1..n, new (n',t') with t' <, =, > t; the erase-last invariant (no old share erased and no result emitted before every new member has acknowledged) is evaluated after every single event of every run, i.e. for every cut point of the schedule; runs with one silent party (every position) must leave all old shares intact; chains of two resharings followed by a signature; non-trivial = all runs"
+	r.Rule = "full resharing runs (EdDSA, and ECDSA on secp256k1 and on NIST P-256, with and without the new-member proofs) with the dealing coefficients fixed through the readers, so that the Coq closed form predicts every new x_j, X_j and the unchanged public key; old (n,t) keys with participating subsets of size t+1..n, new (n',t') with t' <, =, > t; the erase-last invariant (no old share erased and no result emitted before every new member has acknowledged) is evaluated after every single event of every run, i.e. for every cut point of the schedule; runs with one silent party (every position) must leave all old shares intact; chains of two resharings followed by a signature; non-trivial = all runs"
 	g := rng{r}
 	type cfg struct {
 		curve    string
@@ -175,10 +178,13 @@ func genC04(r *vc.Run) {
 		{"ed25519", "kg:3:1", []int{0, 1}, 3, 1, false}, {"ed25519", "kg:3:1", []int{0, 1, 2}, 4, 2, false}, {"ed25519", "kg:5:2", []int{0, 2, 4}, 3, 1, false},
 		{"ed25519", "kg:5:2", []int{0, 1, 2, 3}, 5, 3, false}, {"ed25519", "kg:3:2", []int{0, 1, 2}, 2, 1, false},
 		{"secp256k1", "fixture", []int{0, 1, 2}, 3, 1, false},
+		// a key on a curve the application brings itself (NIST P-256), threshold raised
+		{"p256", "p256:kg:2:1", []int{0, 1}, 3, 2, false},
 	}
 	if r.Thorough() {
 		cfgs = append(cfgs, cfg{"secp256k1", "fixture", []int{0, 1, 2, 3}, 4, 3, false}, cfg{"secp256k1", "fixture", []int{1, 2, 4}, 3, 2, true}, cfg{"secp256k1", "kg:3:1", []int{0, 2}, 3, 2, false},
-			cfg{"ed25519", "kg:4:2", []int{0, 1, 3}, 5, 2, false}, cfg{"ed25519", "kg:5:4", []int{0, 1, 2, 3, 4}, 3, 2, false})
+			cfg{"ed25519", "kg:4:2", []int{0, 1, 3}, 5, 2, false}, cfg{"ed25519", "kg:5:4", []int{0, 1, 2, 3, 4}, 3, 2, false},
+			cfg{"p256", "p256:kg:3:1", []int{0, 2}, 2, 1, true})
 	}
 	for ci, c := range cfgs {
 		q := curveByName(c.curve).Params().N
